@@ -862,6 +862,38 @@ func (c *Ctx) checkKeyMatchExact() {
 				r.Check(good, "M9", key, c.P.Pos(bo.Pos()), "the key is compared with name[pad:]", "the key is compared with a slice of the name that does not run from the hash prefix to the end of the name: a different key can match this entry")
 			}
 		}
+		// suffix form: strings.HasSuffix(name, key) is exact only under len(name) == pad + len(key)
+		for _, ci := range core.CallsIn(fn) {
+			call, ok := ci.(*ssa.Call)
+			if !ok || !core.IsCallTo(call, "strings", "HasSuffix") || len(call.Call.Args) != 2 || call.Call.Args[1] != ssa.Value(keyP) {
+				continue
+			}
+			n++
+			name := call.Call.Args[0]
+			exact := core.GuardedBy(call.Block(), func(cond ssa.Value) (bool, bool) {
+				bo, ok := cond.(*ssa.BinOp)
+				if !ok || (bo.Op != token.EQL && bo.Op != token.NEQ) {
+					return false, false
+				}
+				isLenName := func(v ssa.Value) bool {
+					x, ok := lenOf(v)
+					return ok && x == name
+				}
+				isPadPlusKey := func(v ssa.Value) bool {
+					add, ok := v.(*ssa.BinOp)
+					if !ok || add.Op != token.ADD {
+						return false
+					}
+					lk := func(v ssa.Value) bool { x, ok := lenOf(v); return ok && x == ssa.Value(keyP) }
+					return (add.X == ssa.Value(padP) && lk(add.Y)) || (add.Y == ssa.Value(padP) && lk(add.X))
+				}
+				if (isLenName(bo.X) && isPadPlusKey(bo.Y)) || (isLenName(bo.Y) && isPadPlusKey(bo.X)) {
+					return bo.Op == token.EQL, true
+				}
+				return false, false
+			})
+			r.Check(exact, "M9", core.FuncName(fn)+"/suffix-match-exact-length", c.P.Pos(call.Pos()), "the suffix comparison runs under len(name) == pad + len(key)", "the key is compared as a suffix of the name without requiring len(name) == pad + len(key): a key matches every entry whose name ends with it")
+		}
 	}
 	r.Floor("M9", n, 1)
 }
